@@ -903,6 +903,15 @@ void AbstractDOMParser::endElement( const   XMLElementDecl&
         ((XIncludeUtils::isXIFallbackDOMNode(fCurrentNode) &&
           !XMLString::equals(fCurrentParent->getNamespaceURI(), XIncludeUtils::fgXIIIncludeNamespaceURI)))))
     {
+        // The content of a fallback element is only of interest when the
+        // fallback gets used; it is processed then, as part of the include
+        // element the fallback belongs to.
+        for (DOMNode* ancestor = fCurrentParent; ancestor != 0; ancestor = ancestor->getParentNode())
+        {
+            if (XIncludeUtils::isXIFallbackDOMNode(ancestor))
+                return;
+        }
+
     	XIncludeUtils xiu((XMLErrorReporter *) this);
 	    // process the XInclude node, then update the fCurrentNode with the new content
 	    if(xiu.parseDOMNodeDoingXInclude(fCurrentNode, fDocument, getScanner()->getEntityHandler()))
